@@ -21,7 +21,7 @@ DESIGN_REF = "DESIGN.md section 3, C11"
 TECHNIQUE = "Hypothesis-generated renderings with a recorded line map, generated parse histories over reused parser objects, and located single-fault injection with the CLI '-->' marker checked through click's CliRunner"
 LEVEL_TEXT = (
     "(1) Generated command files with arbitrary blank lines, comment lines, trailing comments, multi-line arguments and "
-    "lists, LF and CRLF are parsed and every CommandNode, ArgumentNode, value and list-element line number is compared "
+    "lists, quoted strings that run over several physical lines, LF, CRLF and bare-CR line ends are parsed and every CommandNode, ArgumentNode, value and list-element line number is compared "
     "with the line recorded by the renderer; the same for Argument/ListArgument line numbers after Program.from_source. "
     "(2) Histories of parses (good and failing) on a pool of reused Parser objects must not change any line. "
     "(3) Into laid-out valid models exactly one fault with a known location is injected (unknown command, duplicate "
@@ -30,7 +30,7 @@ LEVEL_TEXT = (
     "raw values); the error must carry a line inside the offending argument (or the command header), and the command-"
     "line tool must mark exactly that source line. Sampled fault positions, not exhaustive."
 )
-LEVEL_NOTE = "Tuple-pair line numbers are not asserted (the statement lists commands, arguments and list elements); raw line breaks inside quoted strings are outside the domain."
+LEVEL_NOTE = "Tuple-pair line numbers are not asserted (the statement lists commands, arguments and list elements)."
 RULE = (
     "Cases: (lines) abstract program + layout from vcheck/gen/render.py; (history) list of steps (parser index, good or "
     "corrupted text); (fault) typed model + layout + one located fault, run through the API and, one in three, through "
